@@ -94,8 +94,11 @@ def apply_op(g, op):
     p, t, a = op
     before = (list(g.stacks), dict(g.pot.balances), len(g.actions), dict(g.last_actions))
     try:
-        g.act(player=p, action=t, amount=a)
+        with core.time_limit(3.0):
+            g.act(player=p, action=t, amount=a)
         return "ok", ""
+    except core.Hang as e:
+        return "internal", f"Hang: act({p!r}, {t!r}, {a!r}) {e}"
     except Exception as e:
         # a rejection happens before anything is recorded; an exception after the action was recorded (log, chips
         # or last action changed) is a failure inside the engine on an accepted action
@@ -108,7 +111,8 @@ def run_ops(case):
     """execute case['ops'] on a fresh implementation object; returns the observation record"""
     rec = {"steps": []}
     try:
-        g = new_game(case)
+        with core.time_limit(3.0):
+            g = new_game(case)
     except Exception as e:
         rec["ctor"] = {"err": type(e).__name__, "msg": str(e)[:100]}
         return rec, None
